@@ -39,6 +39,24 @@ fn build(c: &Case, n: u64) -> Vec<u8> {
     }
 }
 
+/// (batch_size, requests arriving together, server first handles a full batch of 64 valid requests)
+const MODES: [(u8, usize, bool); 5] = [(64, 1, false), (1, 1, false), (2, 2, false), (4, 4, false), (64, 1, true)];
+
+/// A burst of 64 valid requests (both protocols) queued before the first step: one completely full
+/// batch of the default size. All must be answered.
+fn prime(p: &mut Prober) -> Result<(), String> {
+    let cs: Vec<Client> = (0..64).map(|_| Client::new()).collect();
+    for (k, c) in cs.iter().enumerate() {
+        let v = if k % 2 == 0 { Version::Classic } else { Version::Ietf13 };
+        c.send(p.srv.addr, &rtref::responder::std_request(v, &nonce(0xc12_0000 + k as u64, v.nonce_len())));
+    }
+    p.srv.settle().map_err(|e| format!("priming burst panicked: {}", e))?;
+    for c in &cs {
+        let _ = c.drain();
+    }
+    Ok(())
+}
+
 pub fn run(ctx: &Ctx) -> Result<(), String> {
     ctx.set_level("model_checking");
     crate::inproc::init();
@@ -82,81 +100,106 @@ pub fn run(ctx: &Ctx) -> Result<(), String> {
     let transitions = AtomicU64::new(0);
     let failed: Mutex<Option<String>> = Mutex::new(None);
     let shards = crate::util::nthreads() * 2;
-    par_for(shards, 1, |sh, _| {
-        let mut p = match Prober::new(&SrvCfg::default()) {
-            Ok(p) => p,
-            Err(e) => {
-                *failed.lock().unwrap() = Some(e);
-                return;
-            }
-        };
-        let mut local: BTreeMap<String, u64> = BTreeMap::new();
-        let mut i = sh;
-        while i < cases.len() {
-            let c = &cases[i];
-            let d = build(c, i as u64);
-            i += shards;
-            // no sentinel per case (cheap path): send, settle, drain
-            let cl = Client::new();
-            cl.send(p.srv.addr, &d);
-            transitions.fetch_add(3, Relaxed);
-            if let Err(pn) = p.srv.settle() {
-                ctx.violation("panic", "request-gate", &c.label, json!({"kind":"request","hex":hex_trunc(&d, 256),"panic":pn}));
-                p = Prober::new(&SrvCfg::default()).unwrap();
-                continue;
-            }
-            let got: Vec<Vec<u8>> = cl.drain().into_iter().map(|x| x.0).collect();
-            let exp = classify(&d, &srv_ok);
-            let detail = |msg: String| json!({"kind":"request","label":c.label,"ver":c.ver.as_ref().map(|v| hex(v)),"srv":c.srv.as_ref().map(|v| hex(v)),"hex":hex_trunc(&d, 200),"message":msg});
-            let cls = match exp {
-                Expect::MustAnswer(_) => {
-                    if got.len() != 1 {
-                        ctx.violation("no-reply", "request-gate", &c.label, detail(format!("draft-13 among the first four VER entries, SRV absent/correct: {} replies", got.len())));
-                    }
-                    "must-answer"
+    // The table is run on long-lived servers in several states: default batch size, one request per
+    // poll cycle; batch sizes 1, 2 and 4 with the requests arriving in groups that fill a batch
+    // exactly (every collect ends because the batch is full); and a server that has first handled
+    // a burst of 64 valid requests (one full batch of the default size).
+    for &(bs, group, primed) in MODES.iter() {
+        par_for(shards, 1, |sh, _| {
+            let cfg = SrvCfg { batch_size: bs, ..Default::default() };
+            let fresh = |primed: bool| -> Result<Prober, String> {
+                let mut p = Prober::new(&cfg)?;
+                if primed {
+                    prime(&mut p)?;
                 }
-                Expect::May(_) => "may-answer",
-                Expect::MustNot => {
-                    if !got.is_empty() {
-                        let why = if c.srv.as_ref().map(|s| *s != srv_ok).unwrap_or(false) { "srv-mismatch" } else { "no-supported-version" };
-                        ctx.violation("answered-unsupported", why, &c.label, detail(format!("{} replies", got.len())));
-                    }
-                    "must-not-answer"
+                Ok(p)
+            };
+            let mut p = match fresh(primed) {
+                Ok(p) => p,
+                Err(e) => {
+                    *failed.lock().unwrap() = Some(e);
+                    return;
                 }
             };
-            for r in &got {
-                // reply verifies and states draft-13 + VERS inside the signed part (SERVER_VIEW checks both)
-                if let Err(cl) = authentic(r, &d, Version::Ietf13, Some(&lt_pk), SERVER_VIEW) {
-                    ctx.violation("reply-not-authentic", cl, &c.label, detail(format!("reference verifier: {}", cl)));
+            let mut local: BTreeMap<String, u64> = BTreeMap::new();
+            let mine: Vec<usize> = (sh..cases.len()).step_by(shards).collect();
+            for chunk in mine.chunks(group) {
+                let ds: Vec<Vec<u8>> = chunk.iter().map(|&i| build(&cases[i], i as u64)).collect();
+                let cls_: Vec<Client> = ds.iter().map(|_| Client::new()).collect();
+                for (cl, d) in cls_.iter().zip(&ds) {
+                    cl.send(p.srv.addr, d);
+                }
+                transitions.fetch_add(2 + ds.len() as u64, Relaxed);
+                let mode = json!({"batch_size": bs, "arriving_together": group, "after_full_batch_of_64": primed});
+                if let Err(pn) = p.srv.settle() {
+                    ctx.violation("panic", "request-gate", &cases[chunk[0]].label, json!({"kind":"request-group","mode":mode,"datagrams":ds.iter().map(|d| hex(d)).collect::<Vec<_>>(),"panic":pn}));
+                    p = match fresh(primed) {
+                        Ok(p) => p,
+                        Err(e) => {
+                            *failed.lock().unwrap() = Some(e);
+                            return;
+                        }
+                    };
+                    continue;
+                }
+                for ((&i, d), cl) in chunk.iter().zip(&ds).zip(&cls_) {
+                    let c = &cases[i];
+                    let got: Vec<Vec<u8>> = cl.drain().into_iter().map(|x| x.0).collect();
+                    let exp = classify(d, &srv_ok);
+                    let label = if bs == 64 && !primed { c.label.clone() } else { format!("{}@bs{}{}", c.label, bs, if primed { "-after-full-batch" } else { "" }) };
+                    let detail = |msg: String| json!({"kind":"request-group","mode":mode,"index_in_group":chunk.iter().position(|x| *x == i),"label":c.label,"ver":c.ver.as_ref().map(|v| hex(v)),"srv":c.srv.as_ref().map(|v| hex(v)),"datagrams":ds.iter().map(|d| hex(d)).collect::<Vec<_>>(),"message":msg});
+                    let cls = match exp {
+                        Expect::MustAnswer(_) => {
+                            if got.len() != 1 {
+                                ctx.violation("no-reply", "request-gate", &label, detail(format!("draft-13 among the first four VER entries, SRV absent/correct: {} replies", got.len())));
+                            }
+                            "must-answer"
+                        }
+                        Expect::May(_) => "may-answer",
+                        Expect::MustNot => {
+                            if !got.is_empty() {
+                                let why = if c.srv.as_ref().map(|s| *s != srv_ok).unwrap_or(false) { "srv-mismatch" } else { "no-supported-version" };
+                                ctx.violation("answered-unsupported", why, &label, detail(format!("{} replies", got.len())));
+                            }
+                            "must-not-answer"
+                        }
+                    };
+                    for r in &got {
+                        // reply verifies and states draft-13 + VERS inside the signed part (SERVER_VIEW checks both)
+                        if let Err(cl) = authentic(r, d, Version::Ietf13, Some(&lt_pk), SERVER_VIEW) {
+                            ctx.violation("reply-not-authentic", cl, &label, detail(format!("reference verifier: {}", cl)));
+                        }
+                    }
+                    *local.entry(format!("{}:{}/{}", label, cls, got.len())).or_insert(0) += 1;
                 }
             }
-            *local.entry(format!("{}:{}/{}", c.label, cls, got.len())).or_insert(0) += 1;
-        }
-        // the worker is still alive
-        match p.sentinel() {
-            Ok(true) => {}
-            Ok(false) => ctx.violation("sentinel-unanswered", "request-gate", "end-of-shard", json!({"kind":"shard","shard":sh})),
-            Err(e) => *failed.lock().unwrap() = Some(e),
-        }
-        let mut g = classes.lock().unwrap();
-        for (k, v) in local {
-            *g.entry(k).or_insert(0) += v;
-        }
-    });
+            // the worker is still alive
+            match p.sentinel() {
+                Ok(true) => {}
+                Ok(false) => ctx.violation("sentinel-unanswered", "request-gate", "end-of-shard", json!({"kind":"shard","shard":sh})),
+                Err(e) => *failed.lock().unwrap() = Some(e),
+            }
+            let mut g = classes.lock().unwrap();
+            for (k, v) in local {
+                *g.entry(k).or_insert(0) += v;
+            }
+        });
+    }
     if let Some(e) = failed.lock().unwrap().take() {
         return Err(e);
     }
     let cls = classes.lock().unwrap().clone();
     ctx.cov("states", json!(cls.len()));
     ctx.cov("transitions", json!(transitions.load(Relaxed)));
-    ctx.cov("traces_validated_against_impl", json!(cases.len()));
-    ctx.cov("evaluations", json!(cases.len()));
-    ctx.cov("distinct_nontrivial", json!(cases.len()));
+    ctx.cov("traces_validated_against_impl", json!(cases.len() * MODES.len()));
+    ctx.cov("evaluations", json!(cases.len() * MODES.len()));
+    ctx.cov("distinct_nontrivial", json!(cases.len() * MODES.len()));
+    ctx.cov("server_states", json!(MODES.iter().map(|m| json!({"batch_size": m.0, "arriving_together": m.1, "after_full_batch_of_64": m.2})).collect::<Vec<_>>()));
     ctx.cov("truth_table_rows", json!(table_n));
     ctx.cov("outcome_classes", json!(cls));
     ctx.cov("exhaustive", json!(true));
     ctx.cov("bound", json!({"ver_list_len_max": maxlen, "ver_alphabet": VERS.iter().map(|v| hex(v)).collect::<Vec<_>>(), "srv_bitflips": 256}));
-    ctx.cov("rule", json!(format!("truth table: every VER list of length 0..={} over {{draft-13, classic 0, 0x80000001, 0x8000000b, 0xffffffff}} plus VER absent, x SRV {{absent, correct, another server's}}; for the minimal list SRV under each of the 256 single-bit corruptions and lengths 0/4/28/36/64. Each request is one transition on a long-running real in-process Server (one per shard, alive-check by sentinel at the end). Oracle (3-valued): must answer iff draft-13 among the first four entries and SRV absent/correct; must not answer if the list lacks draft-13 or SRV differs; may if draft-13 only at position >= 5; every reply authentic with SREP.VER = draft-13 and VERS containing it.", maxlen)));
+    ctx.cov("rule", json!(format!("truth table: every VER list of length 0..={} over {{draft-13, classic 0, 0x80000001, 0x8000000b, 0xffffffff}} plus VER absent, x SRV {{absent, correct, another server's}}; for the minimal list SRV under each of the 256 single-bit corruptions and lengths 0/4/28/36/64. Each request is one transition on a long-running real in-process Server (one per shard, alive-check by sentinel at the end); the whole table runs in five server states: batch_size 64 one request per poll cycle, batch_size 1/2/4 with requests arriving in groups that fill the batch exactly, and batch_size 64 after a full batch of 64 valid requests. Oracle (3-valued): must answer iff draft-13 among the first four entries and SRV absent/correct; must not answer if the list lacks draft-13 or SRV differs; may if draft-13 only at position >= 5; every reply authentic with SREP.VER = draft-13 and VERS containing it.", maxlen)));
     ctx.sample(json!({"ver":"0b000080 00000000 0c000080","srv":"absent","expect":"must-answer"}));
     ctx.sample(json!({"ver":"00000000 x4 then 0c000080","srv":"correct","expect":"may-answer"}));
     ctx.sample(json!({"ver":"0c000080","srv":"bit 17 flipped","expect":"must-not-answer"}));
@@ -164,6 +207,38 @@ pub fn run(ctx: &Ctx) -> Result<(), String> {
 }
 
 pub fn replay_case(c: &Value) -> Result<Option<String>, String> {
+    if c["kind"].as_str() == Some("request-group") {
+        let ds: Vec<Vec<u8>> = c["datagrams"].as_array().ok_or("datagrams")?.iter().map(|h| crypto::unhex(h.as_str().unwrap_or(""))).collect();
+        let bs = c["mode"]["batch_size"].as_u64().unwrap_or(64) as u8;
+        let primed = c["mode"]["after_full_batch_of_64"].as_bool().unwrap_or(false);
+        let lt_pk = crypto::public_key(&crate::inproc::DEFAULT_SEED);
+        let srv_ok = crypto::srv_value(&lt_pk);
+        return crate::util::on_named_thread("worker-0", move || {
+            let mut p = Prober::new(&SrvCfg { batch_size: bs, ..Default::default() })?;
+            if primed {
+                prime(&mut p)?;
+            }
+            // the recorded group is replayed twice: state left behind by the first round meets the second
+            for round in 0..2 {
+                let cls: Vec<Client> = ds.iter().map(|_| Client::new()).collect();
+                for (cl, d) in cls.iter().zip(&ds) {
+                    cl.send(p.srv.addr, d);
+                }
+                if let Err(pn) = p.srv.settle() {
+                    return Ok(Some(format!("panic {}", pn)));
+                }
+                for (cl, d) in cls.iter().zip(&ds) {
+                    let n = cl.drain().len();
+                    match classify(d, &srv_ok) {
+                        Expect::MustAnswer(_) if n != 1 => return Ok(Some(format!("round {}: must answer, {} replies", round, n))),
+                        Expect::MustNot if n != 0 => return Ok(Some(format!("round {}: must not answer, {} replies", round, n))),
+                        _ => {}
+                    }
+                }
+            }
+            Ok(None)
+        });
+    }
     let h = c["hex"].as_str().ok_or("hex")?;
     if h.contains("..(") {
         // rebuild from ver/srv
